@@ -59,7 +59,7 @@ def l2_margin_e2(tier='quick', case=None, seed=0):
         res.append((name, r, model))
     out = dict(solver_calls=n, solver_s=round(tot, 3), paths=0, nontrivial=n + pts,
                samples=[dict(lemma='L2_margin', kind='reachability witness (ejectable molecule under the pre-conditions)', input=m0), dict(lemma='L2_margin', kind='translator validation points (real can_be_yielded vs encoding)', count=pts)],
-               detail='; '.join('%s=%s' % (a, b) for a, b, _ in res))
+               detail='; '.join('%s=%s' % (a, b) for a, b, _ in res) + ' | ' + T.cross_summary())
     sat = [x for x in res if x[1] == 'sat']
     if sat:
         out.update(verdict='refuted', cex=dict(sat[0][2], goal=sat[0][0]))
